@@ -424,4 +424,356 @@ example : (Bucket.run 2 1 1000 [(2500, 1), (1400, 1), (1001, 1), (1000, 3), (0, 
 example : TimesOk [(2500, 1), (1400, 1), (1001, 1), (1000, 3), (0, 3)] := by
   refine ⟨by decide, by decide, by decide, by decide, by decide, trivial⟩
 
+/-! ## every history: no eviction and no cross-talk while the distinct values fit the capacity -/
+
+/-- one check for `arg` changes both counters only by `LruStep`s -/
+theorem checkReject_step (c : HsCtrl) (now : Nat) (arg : String) (batch : Nat) (h : CellOk c arg) :
+    LruStep c.time (c.checkReject now arg batch).1.time arg ∧ LruStep c.token (c.checkReject now arg batch).1.token arg := by
+  unfold HsCtrl.checkReject
+  have sT := fun v => LruStep.add c.time arg v h.roomT
+  have sK := fun v => LruStep.add c.token arg v h.roomK
+  have sG := LruStep.get c.token arg
+  by_cases h0 : c.time.cap = 0 ∨ c.token.cap = 0
+  · simp only [h0, if_true]; exact ⟨LruStep.same _ _, LruStep.same _ _⟩
+  · simp only [h0, if_false]
+    split
+    · exact ⟨LruStep.same _ _, LruStep.same _ _⟩
+    · split
+      · exact ⟨LruStep.same _ _, LruStep.same _ _⟩
+      · cases hl : (c.time.addIfAbsent arg now).2 with
+        | none =>
+          have e : c.time.addIfAbsent arg now = ((c.time.addIfAbsent arg now).1, none) := by rw [← hl]
+          rw [e]; simp only []
+          exact ⟨sT now, sK _⟩
+        | some lastT =>
+          have e : c.time.addIfAbsent arg now = ((c.time.addIfAbsent arg now).1, some lastT) := by rw [← hl]
+          rw [e]; simp only []
+          split
+          · cases ho : (c.token.addIfAbsent arg (c.rule.thrFor arg + c.rule.burst - batch)).2 with
+            | none =>
+              have e2 : c.token.addIfAbsent arg (c.rule.thrFor arg + c.rule.burst - batch)
+                  = ((c.token.addIfAbsent arg (c.rule.thrFor arg + c.rule.burst - batch)).1, none) := by rw [← ho]
+              rw [e2]; simp only []
+              exact ⟨(sT now).store _ _, sK _⟩
+            | some rest =>
+              have e2 : c.token.addIfAbsent arg (c.rule.thrFor arg + c.rule.burst - batch)
+                  = ((c.token.addIfAbsent arg (c.rule.thrFor arg + c.rule.burst - batch)).1, some rest) := by rw [← ho]
+              rw [e2]; simp only []
+              repeat' split
+              all_goals first
+                | exact ⟨sT now, sK _⟩
+                | exact ⟨(sT now).store _ _, (sK _).store _ _⟩
+          · cases hg : (c.token.get arg).2 with
+            | none =>
+              have e2 : c.token.get arg = ((c.token.get arg).1, none) := by rw [← hg]
+              rw [e2]; simp only []
+              exact ⟨sT now, sG⟩
+            | some rest =>
+              have e2 : c.token.get arg = ((c.token.get arg).1, some rest) := by rw [← hg]
+              rw [e2]; simp only []
+              split
+              · exact ⟨sT now, sG.store _ _⟩
+              · exact ⟨sT now, sG⟩
+
+/-- the controller's invariant with respect to a universe `U` of parameter values that fits both counters -/
+structure CtrlInv (c : HsCtrl) (U : List String) : Prop where
+  capT : c.time.cap ≠ 0
+  capK : c.token.cap ≠ 0
+  fitT : U.length ≤ c.time.cap
+  fitK : U.length ≤ c.token.cap
+  subT : ∀ x ∈ c.time.keys, x ∈ U
+  subK : ∀ x ∈ c.token.keys, x ∈ U
+  ndT : c.time.keys.Nodup
+  ndK : c.token.keys.Nodup
+  sync : ∀ a, (c.time.peek a).isSome = (c.token.peek a).isSome
+
+/-- under the invariant every value of the universe has its cells or room for them -/
+theorem CtrlInv.cellOk {c : HsCtrl} {U : List String} (h : CtrlInv c U) (arg : String) (ha : arg ∈ U) : CellOk c arg :=
+  ⟨Lru.room_of_universe c.time U arg h.capT h.fitT h.ndT h.subT ha,
+   Lru.room_of_universe c.token U arg h.capK h.fitK h.ndK h.subK ha, h.sync arg⟩
+
+/-- a freshly built controller (capacity at least the number of distinct values) satisfies it -/
+theorem CtrlInv.fresh (r : HsRule) (U : List String) (hq : r.metric = .qps) (hcap : r.capacity ≠ 0) (hU : U.length ≤ r.capacity) :
+    CtrlInv (HsCtrl.new r) U := by
+  unfold HsCtrl.new
+  rw [hq]
+  exact ⟨hcap, hcap, hU, hU, by simp [Lru.keys], by simp [Lru.keys], by simp [Lru.keys], by simp [Lru.keys], fun a => by simp [Lru.peek]⟩
+
+/-- the two counters keep knowing the same values -/
+theorem checkReject_sync (c : HsCtrl) (now : Nat) (arg : String) (batch : Nat) (h : CellOk c arg)
+    (hs : ∀ a, (c.time.peek a).isSome = (c.token.peek a).isSome) (a : String) :
+    ((c.checkReject now arg batch).1.time.peek a).isSome = ((c.checkReject now arg batch).1.token.peek a).isSome := by
+  by_cases ha : a = arg
+  · subst ha
+    have hTa := fun v => Lru.peek_addIfAbsent c.time a a v h.roomT
+    have hKa := fun v => Lru.peek_addIfAbsent c.token a a v h.roomK
+    simp only [if_true] at hTa hKa
+    have hT1 : ∀ v, ((c.time.addIfAbsent a v).1.peek a).isSome = true := fun v => by rw [(hTa v).2]; rfl
+    have hK1 : ∀ v, ((c.token.addIfAbsent a v).1.peek a).isSome = true := fun v => by rw [(hKa v).2]; rfl
+    unfold HsCtrl.checkReject
+    by_cases h0 : c.time.cap = 0 ∨ c.token.cap = 0
+    · simp only [h0, if_true]; exact hs a
+    · simp only [h0, if_false]
+      split
+      · exact hs a
+      · split
+        · exact hs a
+        · cases hl : (c.time.addIfAbsent a now).2 with
+          | none =>
+            have e : c.time.addIfAbsent a now = ((c.time.addIfAbsent a now).1, none) := by rw [← hl]
+            rw [e]; simp only []
+            rw [hT1, hK1]
+          | some lastT =>
+            have e : c.time.addIfAbsent a now = ((c.time.addIfAbsent a now).1, some lastT) := by rw [← hl]
+            have hpt : c.time.peek a = some lastT := by rw [← (hTa now).1, hl]
+            have hKsome : (c.token.peek a).isSome = true := by rw [← hs a, hpt]; rfl
+            have hG1 : ((c.token.get a).1.peek a).isSome = true := by rw [Lru.peek_get]; exact hKsome
+            rw [e]; simp only []
+            split
+            · cases ho : (c.token.addIfAbsent a (c.rule.thrFor a + c.rule.burst - batch)).2 with
+              | none =>
+                have e2 : c.token.addIfAbsent a (c.rule.thrFor a + c.rule.burst - batch)
+                    = ((c.token.addIfAbsent a (c.rule.thrFor a + c.rule.burst - batch)).1, none) := by rw [← ho]
+                rw [e2]; simp only []
+                simp [Lru.peek_store, hT1, hK1]
+              | some rest =>
+                have e2 : c.token.addIfAbsent a (c.rule.thrFor a + c.rule.burst - batch)
+                    = ((c.token.addIfAbsent a (c.rule.thrFor a + c.rule.burst - batch)).1, some rest) := by rw [← ho]
+                rw [e2]; simp only []
+                repeat' split
+                all_goals simp [Lru.peek_store, hT1, hK1]
+            · cases hg : (c.token.get a).2 with
+              | none =>
+                have e2 : c.token.get a = ((c.token.get a).1, none) := by rw [← hg]
+                rw [e2]; simp only []
+                rw [hT1, hG1]
+              | some rest =>
+                have e2 : c.token.get a = ((c.token.get a).1, some rest) := by rw [← hg]
+                rw [e2]; simp only []
+                split
+                · simp [Lru.peek_store, hT1, hG1]
+                · rw [hT1, hG1]
+  · obtain ⟨f1, f2⟩ := checkReject_frame c now arg a batch h ha
+    rw [f1, f2]; exact hs a
+
+/-- **the invariant is kept by every check for a value of the universe** -/
+theorem checkReject_inv (c : HsCtrl) (U : List String) (now : Nat) (arg : String) (batch : Nat) (h : CtrlInv c U) (ha : arg ∈ U) :
+    CtrlInv (c.checkReject now arg batch).1 U := by
+  have hc := h.cellOk arg ha
+  obtain ⟨⟨t1, t2, t3⟩, ⟨k1, k2, k3⟩⟩ := checkReject_step c now arg batch hc
+  refine ⟨by rw [t3]; exact h.capT, by rw [k3]; exact h.capK, by rw [t3]; exact h.fitT, by rw [k3]; exact h.fitK, ?_, ?_,
+    t2 h.ndT, k2 h.ndK, checkReject_sync c now arg batch hc h.sync⟩
+  · intro x hx
+    rcases t1 x hx with rfl | hx'
+    · exact ha
+    · exact h.subT x hx'
+  · intro x hx
+    rcases k1 x hx with rfl | hx'
+    · exact ha
+    · exact h.subK x hx'
+
+/-- run a sequence of checks `(time, value, batch)` (oldest first) through the controller, collecting the verdicts -/
+def HsCtrl.runReject (c : HsCtrl) : List (Nat × String × Nat) → HsCtrl × List Bool
+  | [] => (c, [])
+  | (t, v, n) :: rest =>
+    let (c1, r) := c.checkReject t v n
+    let (c2, rs) := c1.runReject rest
+    (c2, (r == .pass) :: rs)
+
+/-- the same sequence seen by the per-value buckets: every value has its own bucket, a request touches only its own -/
+def bucketsRun (rule : HsRule) (cells : String → Bucket) : List (Nat × String × Nat) → (String → Bucket) × List Bool
+  | [] => (cells, [])
+  | (t, v, n) :: rest =>
+    let (s', r) := Bucket.step (rule.thrFor v) rule.burst (rule.durSec * 1000) (cells v) t n
+    let (cells2, rs) := bucketsRun rule (fun x => if x = v then s' else cells x) rest
+    (cells2, (r == .pass) :: rs)
+
+theorem checkReject_rule (c : HsCtrl) (now : Nat) (arg : String) (batch : Nat) : (c.checkReject now arg batch).1.rule = c.rule := by
+  unfold HsCtrl.checkReject
+  split
+  · rfl
+  · simp only []
+    split
+    · rfl
+    · split
+      · rfl
+      · generalize c.time.addIfAbsent arg now = p
+        obtain ⟨time', last⟩ := p
+        generalize c.token.addIfAbsent arg (c.rule.thrFor arg + c.rule.burst - batch) = pk
+        obtain ⟨tok', old⟩ := pk
+        generalize c.token.get arg = pg
+        obtain ⟨tokg, oldg⟩ := pg
+        cases last <;> cases old <;> cases oldg <;> simp only [] <;> (repeat' split) <;> rfl
+
+/-- **No cross-talk, every history**: for every sequence of requests, of any length, whose parameter values all belong to a
+set of distinct values no larger than the rule's capacity, the controller's verdicts are exactly those of independent per-value
+token buckets - each request is decided by its own value's bucket alone (and, by `token_bound`, each value gets at most
+`q + b + q·(t − first)/d` tokens whatever the other values do). Nothing is ever evicted along the way (`CtrlInv`). -/
+theorem run_refines_buckets (c : HsCtrl) (U : List String) (reqs : List (Nat × String × Nat)) (h : CtrlInv c U)
+    (hU : ∀ r ∈ reqs, r.2.1 ∈ U) :
+    (c.runReject reqs).2 = (bucketsRun c.rule (cellOf c) reqs).2 ∧
+    CtrlInv (c.runReject reqs).1 U ∧
+    (∀ v, cellOf (c.runReject reqs).1 v = (bucketsRun c.rule (cellOf c) reqs).1 v) := by
+  induction reqs generalizing c with
+  | nil => exact ⟨rfl, h, fun _ => rfl⟩
+  | cons r rest ih =>
+    obtain ⟨t, v, n⟩ := r
+    have hv : v ∈ U := hU (t, v, n) (by simp)
+    have hc := h.cellOk v hv
+    obtain ⟨hdec, hcell⟩ := checkReject_refines_bucket c t v n hc
+    have hinv := checkReject_inv c U t v n h hv
+    have hrule := checkReject_rule c t v n
+    have hcells : cellOf (c.checkReject t v n).1 =
+        (fun x => if x = v then (Bucket.step (c.rule.thrFor v) c.rule.burst (c.rule.durSec * 1000) (cellOf c v) t n).1 else cellOf c x) := by
+      funext x
+      by_cases hx : x = v
+      · subst hx; simp only [if_true]; exact hcell
+      · simp only [hx, if_false]
+        obtain ⟨f1, f2⟩ := checkReject_frame c t v x n hc hx
+        unfold cellOf; rw [f1, f2]
+    obtain ⟨i1, i2, i3⟩ := ih (c.checkReject t v n).1 hinv (fun r hr => hU r (by simp [hr]))
+    rw [hrule, hcells] at i1 i3
+    simp only [HsCtrl.runReject, bucketsRun]
+    refine ⟨?_, i2, i3⟩
+    rw [i1]
+    congr 1
+    rw [Bool.eq_iff_iff]
+    simp only [beq_iff_eq]
+    exact hdec
+
+/-- tokens admitted to value `v`: the batch counts of its admitted requests -/
+def admittedTo (v : String) : List (Nat × String × Nat) → List Bool → Nat
+  | (_, x, n) :: rest, ok :: oks => (if x = v ∧ ok = true then n else 0) + admittedTo v rest oks
+  | _, _ => 0
+
+/-- request times do not decrease, starting from `t0` -/
+def TimesFrom (t0 : Nat) : List (Nat × String × Nat) → Prop
+  | [] => True
+  | (t, _, _) :: rest => t0 ≤ t ∧ TimesFrom t rest
+
+theorem TimesFrom.ge {t0 : Nat} {reqs : List (Nat × String × Nat)} (h : TimesFrom t0 reqs) : ∀ r ∈ reqs, t0 ≤ r.1 := by
+  induction reqs generalizing t0 with
+  | nil => intro r hr; cases hr
+  | cons a rest ih =>
+    obtain ⟨t, x, n⟩ := a
+    intro r hr
+    rcases List.mem_cons.mp hr with rfl | hr
+    · exact h.1
+    · exact Nat.le_trans h.1 (ih h.2 r hr)
+
+/-- the per-value invariant along the run of all buckets: requests of other values leave `v`'s cells, first time and tally alone;
+requests of `v` are `Bucket.step`s (`bucket_step_inv`) -/
+theorem buckets_value_inv (rule : HsRule) (v : String) (cells : String → Bucket) (first : Option Nat) (adm t0 : Nat)
+    (reqs : List (Nat × String × Nat))
+    (hinv : BucketInv (rule.thrFor v) rule.burst (rule.durSec * 1000) (cells v) first adm) (hlast : (cells v).lastLe t0)
+    (hs : TimesFrom t0 reqs) :
+    ∃ first', BucketInv (rule.thrFor v) rule.burst (rule.durSec * 1000) ((bucketsRun rule cells reqs).1 v) first'
+        (adm + admittedTo v reqs (bucketsRun rule cells reqs).2) ∧
+      (∀ t, t0 ≤ t → (∀ r ∈ reqs, r.1 ≤ t) → ((bucketsRun rule cells reqs).1 v).lastLe t) ∧
+      (first' = first ∨ ∃ r ∈ reqs, r.2.1 = v ∧ first' = some r.1) := by
+  induction reqs generalizing cells first adm t0 with
+  | nil =>
+    refine ⟨first, by simpa [bucketsRun, admittedTo] using hinv, ?_, Or.inl rfl⟩
+    intro t ht _ l r h
+    exact Nat.le_trans (hlast l r h) ht
+  | cons a rest ih =>
+    obtain ⟨t, x, n⟩ := a
+    obtain ⟨ht0, hrest⟩ := hs
+    simp only [bucketsRun, admittedTo]
+    by_cases hx : x = v
+    · subst hx
+      have hnow : (cells x).lastLe t := fun l r h => Nat.le_trans (hlast l r h) ht0
+      have hstep := bucket_step_inv (rule.thrFor x) rule.burst (rule.durSec * 1000) (cells x) first adm t n hinv hnow
+      have hl2 : ((Bucket.step (rule.thrFor x) rule.burst (rule.durSec * 1000) (cells x) t n).1).lastLe t :=
+        bucket_step_last_le _ _ _ _ t n hnow
+      obtain ⟨first', i1, i2, i3⟩ := ih
+        (fun y => if y = x then (Bucket.step (rule.thrFor x) rule.burst (rule.durSec * 1000) (cells x) t n).1 else cells y)
+        (firstAfter first (Bucket.step (rule.thrFor x) rule.burst (rule.durSec * 1000) (cells x) t n).1 t)
+        (if (Bucket.step (rule.thrFor x) rule.burst (rule.durSec * 1000) (cells x) t n).2 = .pass then adm + n else adm) t
+        (by simpa using hstep) (by simpa using hl2) hrest
+      refine ⟨first', ?_, ?_, ?_⟩
+      · have e : (if (Bucket.step (rule.thrFor x) rule.burst (rule.durSec * 1000) (cells x) t n).2 = BRes.pass then adm + n else adm) +
+            admittedTo x rest (bucketsRun rule (fun y => if y = x then (Bucket.step (rule.thrFor x) rule.burst (rule.durSec * 1000) (cells x) t n).1 else cells y) rest).2
+            = adm + ((if x = x ∧ ((Bucket.step (rule.thrFor x) rule.burst (rule.durSec * 1000) (cells x) t n).2 == BRes.pass) = true then n else 0) +
+              admittedTo x rest (bucketsRun rule (fun y => if y = x then (Bucket.step (rule.thrFor x) rule.burst (rule.durSec * 1000) (cells x) t n).1 else cells y) rest).2) := by
+          by_cases hp : (Bucket.step (rule.thrFor x) rule.burst (rule.durSec * 1000) (cells x) t n).2 = BRes.pass
+          · simp [hp]; omega
+          · simp [hp]
+        rw [← e]; exact i1
+      · intro t' ht' hall
+        exact i2 t' (hall (t, x, n) (by simp)) (fun r hr => hall r (by simp [hr]))
+      · rcases i3 with h | ⟨r, hr, h1, h2⟩
+        · rw [h]
+          unfold firstAfter
+          cases first with
+          | some f => exact Or.inl rfl
+          | none =>
+            cases hc : (Bucket.step (rule.thrFor x) rule.burst (rule.durSec * 1000) (cells x) t n).1 with
+            | none => exact Or.inl rfl
+            | some p => exact Or.inr ⟨(t, x, n), by simp, rfl, rfl⟩
+        · exact Or.inr ⟨r, by simp [hr], h1, h2⟩
+    · have hvx : ¬ v = x := fun e => hx e.symm
+      obtain ⟨first', i1, i2, i3⟩ := ih
+        (fun y => if y = x then (Bucket.step (rule.thrFor x) rule.burst (rule.durSec * 1000) (cells x) t n).1 else cells y)
+        first adm t (by simp only [hvx, if_false]; exact hinv)
+        (by simp only [hvx, if_false]; exact fun l r h => Nat.le_trans (hlast l r h) ht0) hrest
+      refine ⟨first', ?_, ?_, ?_⟩
+      · simp only [hx, false_and, if_false, Nat.zero_add]; exact i1
+      · intro t' ht' hall
+        exact i2 t' (hall (t, x, n) (by simp)) (fun r hr => hall r (by simp [hr]))
+      · rcases i3 with h | ⟨r, hr, h1, h2⟩
+        · exact Or.inl h
+        · exact Or.inr ⟨r, by simp [hr], h1, h2⟩
+
+/-- **Token bound for every value, every history, through the real controller model.** A controller that has not seen value `v`
+yet (in particular a fresh one) and any sequence of requests with non-decreasing times over at most `capacity` distinct values:
+the tokens admitted to `v` never exceed `q_v + b + q_v·(t − f)/d`, where `f` is the time of one of `v`'s requests (so at least the
+time of its first one) and `t` any time from the last request on - whatever the other values do. (×D to avoid division.) -/
+theorem controller_token_bound (c : HsCtrl) (U : List String) (reqs : List (Nat × String × Nat)) (v : String) (t0 : Nat)
+    (h : CtrlInv c U) (hU : ∀ r ∈ reqs, r.2.1 ∈ U) (hnew : cellOf c v = none) (hs : TimesFrom t0 reqs) :
+    admittedTo v reqs (c.runReject reqs).2 = 0 ∨
+    ∃ r ∈ reqs, r.2.1 = v ∧ ∀ t, (∀ r' ∈ reqs, r'.1 ≤ t) →
+      admittedTo v reqs (c.runReject reqs).2 * (c.rule.durSec * 1000) ≤
+        (c.rule.thrFor v + c.rule.burst) * (c.rule.durSec * 1000) + c.rule.thrFor v * (t - r.1) := by
+  obtain ⟨hv, _, _⟩ := run_refines_buckets c U reqs h hU
+  rw [hv]
+  obtain ⟨first', i1, i2, i3⟩ := buckets_value_inv c.rule v (cellOf c) none 0 t0 reqs
+    (by rw [hnew]; rfl) (by rw [hnew]; intro l r hh; cases hh) hs
+  simp only [Nat.zero_add] at i1
+  cases hcell : (bucketsRun c.rule (cellOf c) reqs).1 v with
+  | none =>
+    rw [hcell] at i1
+    cases first' with
+    | none => left; exact i1
+    | some f => exact i1.elim
+  | some p =>
+    obtain ⟨last, rest⟩ := p
+    rw [hcell] at i1
+    cases first' with
+    | none => exact i1.elim
+    | some f =>
+      right
+      rcases i3 with hh | ⟨r, hr, h1, h2⟩
+      · cases hh
+      · refine ⟨r, hr, h1, fun t ht => ?_⟩
+        simp only [Option.some.injEq] at h2
+        simp only [BucketInv] at i1
+        have hge : t0 ≤ t := by
+          have := hs.ge r hr
+          exact Nat.le_trans this (ht r hr)
+        have hl := i2 t hge ht last rest hcell
+        have hmono : c.rule.thrFor v * (last - f) ≤ c.rule.thrFor v * (t - f) := Nat.mul_le_mul_left _ (by omega)
+        have hle : admittedTo v reqs (bucketsRun c.rule (cellOf c) reqs).2 * (c.rule.durSec * 1000) ≤
+            (admittedTo v reqs (bucketsRun c.rule (cellOf c) reqs).2 + rest) * (c.rule.durSec * 1000) := Nat.mul_le_mul_right _ (by omega)
+        rw [← h2]
+        omega
+
+/-- non-vacuity of `controller_token_bound`'s premises: a fresh controller has seen no value, and a history over two values -/
+example : cellOf (HsCtrl.new { id := "h", metric := .qps, strategy := .reject, thr := 2, durSec := 1, maxCap := 2 }) "a" = none ∧
+    TimesFrom 0 [(0, "a", 1), (5, "b", 1), (5, "a", 2)] := ⟨rfl, by simp [TimesFrom]⟩
+
+/-- non-vacuity: a fresh controller for `q = 2` per second, capacity 2, and two values -/
+example : CtrlInv (HsCtrl.new { id := "h", metric := .qps, strategy := .reject, thr := 2, durSec := 1, maxCap := 2 }) ["a", "b"] :=
+  CtrlInv.fresh _ _ rfl (by decide) (by decide)
+
 end Sentinel
